@@ -4,7 +4,8 @@
 // imports this file, so editing a predicate or an escape in Go changes the model (and re-checks the proofs).
 //
 // Supported expression language (anything else aborts the translation, which fails the check):
-//   ch, character and integer literals, == != < <= > >=, || && !, parentheses, calls g(ch) of another predicate.
+//
+//	ch, character and integer literals, == != < <= > >=, || && !, parentheses, calls g(ch) of another predicate.
 package main
 
 import (
@@ -115,6 +116,87 @@ func bcExpr(f *bcFunc, e ast.Expr) (string, bool) {
 	return "", false
 }
 
+// bcEval evaluates a translated predicate body on one byte (cross-check against the run-time table)
+func bcEval(funcs map[string]*bcFunc, f *bcFunc, e ast.Expr, b int, depth int) (bool, bool) {
+	if depth > 64 {
+		return false, false
+	}
+	operand := func(x ast.Expr) (int, bool) {
+		for {
+			p, ok := x.(*ast.ParenExpr)
+			if !ok {
+				break
+			}
+			x = p.X
+		}
+		switch v := x.(type) {
+		case *ast.Ident:
+			if v.Name == f.param {
+				return b, true
+			}
+		case *ast.BasicLit:
+			switch v.Kind {
+			case token.CHAR:
+				s, err := strconv.Unquote(v.Value)
+				if err == nil && len(s) == 1 {
+					return int(s[0]), true
+				}
+			case token.INT:
+				n, err := strconv.ParseInt(v.Value, 0, 64)
+				if err == nil {
+					return int(n), true
+				}
+			}
+		}
+		return 0, false
+	}
+	switch x := e.(type) {
+	case *ast.ParenExpr:
+		return bcEval(funcs, f, x.X, b, depth+1)
+	case *ast.UnaryExpr:
+		v, ok := bcEval(funcs, f, x.X, b, depth+1)
+		return !v, ok && x.Op == token.NOT
+	case *ast.CallExpr:
+		id, ok := x.Fun.(*ast.Ident)
+		if !ok || funcs[id.Name] == nil || funcs[id.Name].body == nil {
+			return false, false
+		}
+		g := funcs[id.Name]
+		return bcEval(funcs, g, g.body, b, depth+1)
+	case *ast.BinaryExpr:
+		switch x.Op {
+		case token.LOR, token.LAND:
+			l, ok1 := bcEval(funcs, f, x.X, b, depth+1)
+			r, ok2 := bcEval(funcs, f, x.Y, b, depth+1)
+			if x.Op == token.LOR {
+				return l || r, ok1 && ok2
+			}
+			return l && r, ok1 && ok2
+		default:
+			l, ok1 := operand(x.X)
+			r, ok2 := operand(x.Y)
+			if !ok1 || !ok2 {
+				return false, false
+			}
+			switch x.Op {
+			case token.EQL:
+				return l == r, true
+			case token.NEQ:
+				return l != r, true
+			case token.LSS:
+				return l < r, true
+			case token.LEQ:
+				return l <= r, true
+			case token.GTR:
+				return l > r, true
+			case token.GEQ:
+				return l >= r, true
+			}
+		}
+	}
+	return false, false
+}
+
 func genByteClass() {
 	file := pkgs["lexer"].files["lexer.go"]
 	if file == nil {
@@ -138,15 +220,60 @@ func genByteClass() {
 		f := &bcFunc{name: fd.Name.Name, param: p.Names[0].Name, body: ret.Results[0]}
 		s, ok := bcExpr(f, f.body)
 		if !ok {
+			if _, has := dynPredicate(f.name); has {
+				continue // written in a form outside the translated language: tabulated at run time below
+			}
 			fatal("byte predicate %s: expression outside the translated language", f.name)
 		}
 		funcs[f.name] = f
 		texts[f.name] = s
 	}
+	// cross-check of what was read: the Go expression evaluated on all 256 bytes = the predicate at run time
+	if dyn != nil {
+		for n, f := range funcs {
+			set, has := dyn.ByteClass[n]
+			if !has {
+				continue
+			}
+			in := map[int]bool{}
+			for _, b := range set {
+				in[b] = true
+			}
+			for b := 0; b < 256; b++ {
+				v, ok := bcEval(funcs, f, f.body, b, 0)
+				if ok && v != in[b] {
+					fatal("byte predicate %s: the expression read from the source gives %v on byte %d, the predicate at run time %v", n, v, b, in[b])
+				}
+			}
+		}
+	}
+	var fromDyn []string
 	for _, w := range byteClassWanted {
 		if funcs[w] == nil {
+			if e, has := dynPredicate(w); has { // a switch, a lookup table, ...: the tabulated predicate, as a disjunction of intervals
+				funcs[w] = &bcFunc{name: w}
+				texts[w] = e
+				fromDyn = append(fromDyn, w)
+				continue
+			}
 			fatal("byte predicate %s not found in lexer/lexer.go", w)
 		}
+	}
+	// a translated predicate may call one that was tabulated
+	for _, f := range funcs {
+		for _, d := range f.deps {
+			if funcs[d] == nil {
+				if e, has := dynPredicate(d); has {
+					funcs[d] = &bcFunc{name: d}
+					texts[d] = e
+					fromDyn = append(fromDyn, d)
+				}
+			}
+		}
+	}
+	if len(fromDyn) > 0 {
+		sort.Strings(fromDyn)
+		status["Gen_ByteClass.v"] = "ok (run-time tables for " + strings.Join(fromDyn, ", ") + ": written in a form outside the translated expression language)"
 	}
 	// emit in dependency order
 	var order []string
